@@ -519,6 +519,65 @@ tunnel-group VPN-tunnel-1 general-attributes
  authentication-server-group LDAP1
 tunnel-group-map ca-map-1 10 VPN-tunnel-1
 `),
+		// two device rules whose certificate maps have NO subject-name (key ""), and a crypto map entry with the maximum of eleven
+		// transform-sets, one of them changed (coverage item 30)
+		mk("certmaps-without-subject-and-eleven-transform-sets", `
+crypto ca certificate map old-map-1 10
+ extended-key-usage co clientauth
+crypto ca certificate map old-map-2 20
+ extended-key-usage co clientauth
+tunnel-group VPN-tunnel-1-DRC-0 type remote-access
+tunnel-group-map old-map-1 10 VPN-tunnel-1-DRC-0
+tunnel-group-map old-map-2 20 VPN-tunnel-1-DRC-0
+access-list crypto-outside-1-DRC-0 extended permit ip 10.1.1.0 255.255.255.0 10.99.1.0 255.255.255.0
+crypto ipsec ikev1 transform-set T1-DRC-0 esp-aes esp-sha-hmac
+crypto ipsec ikev1 transform-set T2-DRC-0 esp-3des esp-md5-hmac
+crypto ipsec ikev1 transform-set T3-DRC-0 esp-aes esp-sha-hmac
+crypto ipsec ikev1 transform-set T4-DRC-0 esp-3des esp-md5-hmac
+crypto ipsec ikev1 transform-set T5-DRC-0 esp-aes esp-sha-hmac
+crypto ipsec ikev1 transform-set T6-DRC-0 esp-3des esp-md5-hmac
+crypto ipsec ikev1 transform-set T7-DRC-0 esp-aes esp-sha-hmac
+crypto ipsec ikev1 transform-set T8-DRC-0 esp-3des esp-md5-hmac
+crypto ipsec ikev1 transform-set T9-DRC-0 esp-aes esp-sha-hmac
+crypto ipsec ikev1 transform-set T10-DRC-0 esp-3des esp-md5-hmac
+crypto ipsec ikev1 transform-set T11-DRC-0 esp-aes esp-sha-hmac
+crypto map crypto-outside 1 match address crypto-outside-1-DRC-0
+crypto map crypto-outside 1 set peer 10.0.0.1
+crypto map crypto-outside 1 set ikev1 transform-set T1-DRC-0 T2-DRC-0 T3-DRC-0 T4-DRC-0 T5-DRC-0 T6-DRC-0 T7-DRC-0 T8-DRC-0 T9-DRC-0 T10-DRC-0 T11-DRC-0
+crypto map crypto-outside interface outside
+`, `
+crypto ca certificate map ca-map-1 10
+ subject-name attr ea co @sub1.example.com
+tunnel-group VPN-tunnel-1 type remote-access
+tunnel-group-map ca-map-1 10 VPN-tunnel-1
+access-list crypto-outside-1 extended permit ip 10.1.1.0 255.255.255.0 10.99.1.0 255.255.255.0
+crypto ipsec ikev1 transform-set T1 esp-aes esp-sha-hmac
+crypto ipsec ikev1 transform-set T2 esp-3des esp-md5-hmac
+crypto ipsec ikev1 transform-set T3 esp-aes-256 esp-sha-hmac
+crypto ipsec ikev1 transform-set T4 esp-3des esp-md5-hmac
+crypto ipsec ikev1 transform-set T5 esp-aes esp-sha-hmac
+crypto ipsec ikev1 transform-set T6 esp-3des esp-md5-hmac
+crypto ipsec ikev1 transform-set T7 esp-aes esp-sha-hmac
+crypto ipsec ikev1 transform-set T8 esp-3des esp-md5-hmac
+crypto ipsec ikev1 transform-set T9 esp-aes esp-sha-hmac
+crypto ipsec ikev1 transform-set T10 esp-3des esp-md5-hmac
+crypto ipsec ikev1 transform-set T11 esp-aes esp-sha-hmac
+crypto map crypto-outside 1 match address crypto-outside-1
+crypto map crypto-outside 1 set peer 10.0.0.1
+crypto map crypto-outside 1 set ikev1 transform-set T1 T2 T3 T4 T5 T6 T7 T8 T9 T10 T11
+crypto map crypto-outside interface outside
+`),
+		// a device line that itself starts with `no` and is not wanted: the positive form is sent (coverage item 12)
+		mk("no-sysopt-line-on-device-only", `
+no sysopt connection permit-vpn
+username user1@example.com nopassword
+username user1@example.com attributes
+ service-type remote-access
+`, `
+username user1@example.com nopassword
+username user1@example.com attributes
+ service-type remote-access
+`),
 		// the target has no VPN part at all: everything is removed in an order the device accepts
 		mk("everything-removed", `
 access-list vpn-filter-DRC-0 extended permit ip host 10.3.4.1 10.1.1.0 255.255.255.0
